@@ -225,10 +225,15 @@ class Model:
                         if p in s.pset and self.valid(t, p):
                             out.add((t, p))
                     else:
-                        if a.point(0, self.prog) == q:
-                            for p in s.points:
-                                if self.valid(t, p):
-                                    out.add((t, p))
+                        # an absolute trigger spawns only the first child, at
+                        # the start of the sequence; later instances are
+                        # auto-spawned (parentless: only absolute triggers)
+                        # or spawned by other parents, and find the
+                        # prerequisite already satisfied
+                        if a.point(0, self.prog) == q and s.points:
+                            p = s.points[0]
+                            if self.valid(t, p):
+                                out.add((t, p))
         return out
 
     # -- run semantics -----------------------------------------------------
